@@ -536,6 +536,8 @@ func c19Script(nv int) []Op {
 		{K: OpSubmit, A: 0, R: [3]int{0, 1, 1}},
 		{K: OpGov, A: u(3), R: [3]int{0, 1, 0}, V: 4},
 		{K: OpPropose, A: payer, R: [3]int{0, 0, 0}, V: 1, Amt: Amount{Kind: AmtOfNeeded, N: 500}},
+		// the selector (not a reporter) tries to add to the fee "from bond": only a reporter may pay from the stake selected to it
+		{K: OpAddFee, A: u(1), R: [3]int{0, 3, 0}, Amt: Amount{Kind: AmtAbs, N: 1000}},
 		{K: OpUndelegate, A: u(1), R: [3]int{0, 0, 0}, Amt: Amount{Kind: AmtOfStake, N: 1000}},
 		{}, rm, refund, {}, {}, rm, refund, {}, {}, rm, refund,
 	}
@@ -633,6 +635,8 @@ func c19Profile() *Profile {
 			case OpAddFee:
 				if uni(t, "fromBond", 5) == 0 {
 					op.A, op.R[1] = uni(t, "bondPayer", 2), 3
+				} else if uni(t, "fromBondByAnybody", 6) == 0 {
+					op.R[1] = 3 // whoever signs (often a plain selector or an account without any selection) asks to pay from bond
 				}
 			case OpSwitchReporter:
 				// sometimes a reporter names an arbitrary account (not necessarily a reporter) as the new reporter
